@@ -60,8 +60,8 @@ def prefix_tables(repo: Repo):
     members = pf.enum_values(repo, F_PREFIX, "Prefix")  # NAME -> 'int text'
     fe = repo.func(F_EXPORT, "export_prefix")
     fi = repo.func(F_IMPORT, "import_prefix")
-    er = pf.dict_by_key(fe, "pre.value")
-    ir = pf.dict_by_key(fi, "vpre")
+    er = pf.dict_by_key(fe, "pre.value", repo)
+    ir = pf.dict_by_key(fi, "vpre", repo)
     if er is None or ir is None:
         raise AnalysisError("idiom-unknown: prefix tables (`<table>[pre.value]` in export_prefix, `<table>[vpre]` in import_prefix) not found as dict literals")
     return members, fe, fi, er[0], ir[0]
